@@ -9,6 +9,9 @@ using namespace Vector::BLF;
 #ifndef FIRST_OP
 #define FIRST_OP (-1)
 #endif
+#ifndef NFILE
+#define NFILE 5
+#endif
 #ifndef SECOND_OP
 #define SECOND_OP (-1)
 #endif
@@ -19,10 +22,12 @@ extern "C" void h_hist() {
     {   // a valid file of two objects
         File w; w.compressionLevel = 0; w.setDefaultLogContainerSize(64);
         w.open(VP_FILE("b.blf"), std::ios_base::out);
-        for (int i = 0; i < 2; i++) { CanMessage * m = new CanMessage; m->id = vp_u32("id"); w.write(m); }
+        for (int i = 0; i < NFILE; i++) { CanMessage * m = new CanMessage; m->id = vp_u32("id"); w.write(m); }
         w.close();
     }
     File * f = new File; f->compressionLevel = 0; f->setDefaultLogContainerSize(64);
+    // queue capacity scaled down from 10 to 2: with 5 objects in the file the reader thread waits on the full queue
+    f->m_readWriteQueue.setBufferSize(2);
     int state = CLOSED; bool opened = false; int delivered = 0; bool sawNull = false; int written = 0;
     for (int s = 0; s < STEPS && f; s++) {
         uint32_t op = (s == 0 && FIRST_OP >= 0) ? (uint32_t)FIRST_OP : (s == 1 && SECOND_OP >= 0) ? (uint32_t)SECOND_OP
@@ -38,7 +43,7 @@ extern "C" void h_hist() {
         case OPEN_OUT: f->open(VP_FILE("a.blf"), std::ios_base::out); if (state == CLOSED) { state = WRITING; opened = true; } break;
         case READ: {
             ObjectHeaderBase * o = f->read();
-            if (sawNull || delivered == 2) { vp_assert(o == nullptr, "read() after the last object returns null"); sawNull = true; }
+            if (sawNull || delivered == NFILE) { vp_assert(o == nullptr, "read() after the last object returns null"); sawNull = true; }
             else { vp_assert(o != nullptr, "read() delivers the next object"); if (o) delivered++; }
             delete o;                      // objects returned by read() belong to the caller
             break; }
@@ -49,8 +54,8 @@ extern "C" void h_hist() {
             else if (kind == 1) { RestorePointContainer * r = new RestorePointContainer; r->data.resize(3); vp_bytes(r->data.data(), 3, "rp"); o = r; }
             else { AppText * t = new AppText; t->text.resize(70); vp_bytes(&t->text[0], 70, "txt"); o = t; }   // spans a container
             f->write(o); written++; break; }
-        case CLOSE: f->close(); state = CLOSED; break;
-        case DESTROY: delete f; f = nullptr; state = CLOSED; break;
+        case CLOSE: vp_yield(); f->close(); state = CLOSED; break;      // workers parked wherever they block
+        case DESTROY: vp_yield(); delete f; f = nullptr; state = CLOSED; break;
         }
         if (f) {
             vp_assert(f->is_open() == (state != CLOSED), "is_open() reports the documented state");
@@ -60,6 +65,7 @@ extern "C" void h_hist() {
             }
         }
     }
+    vp_yield();
     delete f;                              // destruction with or without close, data possibly still queued
     VP_ASSERT(vp_threads_alive() == 0);
     vp_check_leaks();
